@@ -80,11 +80,11 @@ Definition step (c : cfg) (b : bucket) (o : op) : bucket :=
 Definition run (c : cfg) (b : bucket) (ops : list op) : bucket := fold_left (step c) ops b.
 
 (* number of tokens actually taken (bumps that found a positive balance) *)
-Fixpoint admitted (c : cfg) (b : bucket) (ops : list op) : N :=
+Fixpoint granted (c : cfg) (b : bucket) (ops : list op) : N :=
   match ops with
   | [] => 0
-  | Check t :: r => admitted c (refresh c b t) r
-  | Bump :: r => (if 0 <? balance b then 1 else 0) + admitted c (bump b) r
+  | Check t :: r => granted c (refresh c b t) r
+  | Bump :: r => (if 0 <? balance b then 1 else 0) + granted c (bump b) r
   end.
 
 Fixpoint count_checks (ops : list op) : N :=
@@ -159,16 +159,16 @@ Fixpoint end_time (now : N) (ops : list top) : N :=
    `new`, the ops and what was observed after each of them.  From it we recompute
    instants and admissions and check, for every window that starts at an observation
    point where nothing more can be credited (creation, or just after a check):
-     interval > 0 :  admitted <= balance_at_start + refill * ((t_end - t_start)/interval + 1)
-     interval = 0 :  admitted <= balance_at_start + refill * (number of checks in the window)
+     interval > 0 :  granted <= balance_at_start + refill * ((t_end - t_start)/interval + 1)
+     interval = 0 :  granted <= balance_at_start + refill * (number of checks in the window)
    for every end point, plus balance <= max at every observation, plus, when the first
-   deadline is not representable, admitted <= initial balance over the whole run. *)
+   deadline is not representable, granted <= initial balance over the whole run. *)
 
 Definition out_bal (o : tout) : N :=
   match o with OAdv b => b | OCheck _ b => b | OBump b => b end.
 
 (* scan one window: start balance b0 at instant t0; running instant now, previous balance
-   prev, admitted so far adm, checks so far nchk *)
+   prev, granted so far adm, checks so far nchk *)
 Fixpoint window_ok (c : cfg) (b0 t0 now prev adm nchk : N) (ops : list top) (outs : list tout) : bool :=
   match ops, outs with
   | [], _ => true
